@@ -8,8 +8,10 @@ bootstrap + the Network graph): specs/Discovery.tla model checked by TLC and bou
     strategy tables, ping caches, what went on the wire) is compared with the TLC state after every action;
  T  seeded runs of the observer among live DiscoveryCommunity nodes (loss, delay, nodes going down and coming back,
     default and shortened timers, target_peers / max_peers limits) are recorded event by event and validated by TLC
-    against specs/DiscoveryTrace.tla, which re-uses the actions of Discovery.tla and evaluates its seven safety
-    properties in every recorded state / step."""
+    against specs/DiscoveryTrace.tla, which re-uses the actions of Discovery.tla and evaluates its eight safety
+    properties in every recorded state / step.
+Both bindings also start the observer with a global time close to / beyond 65535 (an overlay that has been running for a
+few hours): that is where G01-1 (ping cache keyed by the unreduced global time) shows."""
 from __future__ import annotations
 
 import json
@@ -483,6 +485,7 @@ def run(tier, seed, replay=None):
         procs.join()
     ctx.cov["exhaustive"] = not quick
     ctx.note("observations", OBSERVATIONS)
+    ctx.note("defects_reported", DEFECTS)
     phases["model_checking_joined"] = round(time.monotonic() - t_start, 1)
     ctx.note("phases_finished_at_s", phases)
     return ctx.finish()
@@ -499,6 +502,12 @@ OBSERVATIONS = [
     "to itself (replayed in Discovery_r_walk2.cfg with IntroOwn = TRUE)",
     "on_introduction_request admits a peer while len(get_peers()) == max_peers (max_peers + 1 peers), whereas the "
     "peer_limit_reached flag of the response uses <=",
-    "DiscoveryCommunity.send_ping registers the cache under the unreduced global time while the ping carries "
-    "global_time % 65536: after 65535 claimed global times pongs no longer match their cache (no further RTT samples)",
+    "PingChurn (ipv8/dht/churn.py) is not modelled here: it maintains the DHT routing tables (C14 / C15 territory)",
+]
+DEFECTS = [
+    "G01-1 (genuine, fires on the pinned tree; proposed_fixes/G01-1.diff + .repro.py): DiscoveryCommunity.send_ping "
+    "registers its PingRequestCache under the unreduced global time while the ping / pong carry global_time % 65536; "
+    "after 65535 claimed global times no pong matches its cache: PongCounted is violated (replay r_churn1_gt with the "
+    "observer's global time starting at 65533, recorded runs of profile fast-churn starting at 65300), Peer.pings "
+    "receives no further samples and RandomChurn pings every peer every ping_interval for ever",
 ]
